@@ -17,7 +17,7 @@ void KeyvalTools::singleKeyval(const std::string& desc, std::string& key, std::s
   if (i == string::npos)
     throw KeyvalException("Bad syntax! keyval should be of the form 'key" + split + "=value', found '" + desc + "'.");
   key = desc.substr(0, i);
-  val = desc.substr(i + 1);
+  val = desc.substr(i + split.size());
 }
 
 void KeyvalTools::multipleKeyvals(const std::string& desc, std::map<std::string, std::string>& keyvals, const std::string& split, bool nested)
